@@ -264,40 +264,58 @@ pub fn check(case: &C10Case, st: &mut Stats) -> Verdict {
                 // each result verified in its own form
                 if t.honest && t.parts.kb.is_none() && spec.holder.is_some() {
                     let k = KbArgs { default_alg: false, aud: "https://verifier.example/pair".into(), nonce: "pair-nonce".into(), key: spec.holder };
-                    for (oname, sel) in [("given order", case.reselect.clone()), ("reverse member order", crate::derive::reverse_members(&case.reselect))] {
-                        let hc = sut::present(&c, Fmt::Compact, &sel, Some(&k));
-                        let hj = sut::present(&j, Fmt::Json, &sel, Some(&k));
+                    // one holder instance per form serves the whole sequence: key-bound (given
+                    // order), key-bound (reverse member order), then WITHOUT key binding
+                    let (mut hc, mut hj) = match (sut::new_holder(&c, Fmt::Compact), sut::new_holder(&j, Fmt::Json)) {
+                        (Out::Ok(a), Out::Ok(b)) => (a, b),
+                        _ => continue,
+                    };
+                    let steps: [(&str, Map<String, Value>, bool); 3] = [
+                        ("given order, key-bound", case.reselect.clone(), true),
+                        ("reverse member order, key-bound", crate::derive::reverse_members(&case.reselect), true),
+                        ("given order, no key binding, after key-bound calls on the same holder", case.reselect.clone(), false),
+                    ];
+                    for (oname, sel, bound) in steps.iter() {
+                        let kb = if *bound { Some(&k) } else { None };
+                        let pc = sut::present_with(&mut hc, sel, kb);
+                        let pj = sut::present_with(&mut hj, sel, kb);
                         st.sub(2);
-                        let vc = match &hc {
-                            Out::Ok(p) => Some(sut::verify_full(p, Fmt::Compact, &honest_resolver, Some(&k.aud), Some(&k.nonce), None)),
-                            Out::Err(_) => None,
-                            Out::Panic(_) => continue,
-                        };
-                        let vj = match &hj {
-                            Out::Ok(p) => Some(sut::verify_full(p, Fmt::Json, &honest_resolver, Some(&k.aud), Some(&k.nonce), None)),
-                            Out::Err(_) => None,
-                            Out::Panic(_) => continue,
-                        };
-                        let same = match (&vc, &vj) {
-                            (None, None) => true,
-                            (Some(a), Some(b)) => outcome_eq(a, b),
-                            _ => false,
-                        };
-                        st.label("holder_pair_compared_with_kb");
-                        if !same {
-                            return Err(Failure::new(
-                                "transcode:holder-differs:kb",
-                                format!(
-                                    "key-bound presentations made from the two forms of the same SD-JWT with the same selection ({}) fare differently — {}\n  selection: {}\n  Compact: {} -> {}\n  JSON: {} -> {}",
-                                    oname,
-                                    t.desc,
-                                    Value::Object(sel.clone()),
-                                    hc.describe(),
-                                    vc.map(|v| v.describe()).unwrap_or_else(|| "-".into()),
-                                    hj.describe(),
-                                    vj.map(|v| v.describe()).unwrap_or_else(|| "-".into())
-                                ),
-                            ));
+                        if matches!(pc, Out::Panic(_)) || matches!(pj, Out::Panic(_)) {
+                            break;
+                        }
+                        // every result is verified in its own form, with and without a key-binding demand
+                        for (aud, nonce) in [(Some(k.aud.as_str()), Some(k.nonce.as_str())), (None, None)] {
+                            let vc = match &pc {
+                                Out::Ok(p) => Some(sut::verify_full(p, Fmt::Compact, &honest_resolver, aud, nonce, None)),
+                                _ => None,
+                            };
+                            let vj = match &pj {
+                                Out::Ok(p) => Some(sut::verify_full(p, Fmt::Json, &honest_resolver, aud, nonce, None)),
+                                _ => None,
+                            };
+                            let same = match (&vc, &vj) {
+                                (None, None) => true,
+                                (Some(a), Some(b)) => outcome_eq(a, b),
+                                _ => false,
+                            };
+                            st.label("holder_pair_compared_with_kb");
+                            if !same {
+                                return Err(Failure::new(
+                                    "transcode:holder-differs:kb",
+                                    format!(
+                                        "presentations made by holders built from the two forms of the same SD-JWT ({}) fare differently with a verifier expecting aud={:?} nonce={:?} — {}\n  selection: {}\n  Compact: {} -> {}\n  JSON: {} -> {}",
+                                        oname,
+                                        aud,
+                                        nonce,
+                                        t.desc,
+                                        Value::Object(sel.clone()),
+                                        pc.describe(),
+                                        vc.map(|v| v.describe()).unwrap_or_else(|| "-".into()),
+                                        pj.describe(),
+                                        vj.map(|v| v.describe()).unwrap_or_else(|| "-".into())
+                                    ),
+                                ));
+                            }
                         }
                     }
                 }
